@@ -370,18 +370,43 @@ Definition model_sdoc (fx : fixes) (S : schema) (F : features) (d : sdoc) : opti
   | Forged => None
   end.
 
-(** the documents the transcription speaks about: response keys pairwise distinct (the
-    field-merging rule and the merging of selection sets are not transcribed), fragment names
+(** a subscription: (lines, calls, tree) with the events' data under the key "events" *)
+Definition model_ssub (fx : fixes) (S : schema) (F : features) (events : nat) (d : sdoc) : option sexp :=
+  match snd (run fx S F [] (ssub_prog (sdoc_fuel d) events d)) with
+  | Done (errs, r) =>
+      let lines := tag "lines" (map of_nat (sort_nat errs)) in
+      match r with
+      | None => Some (SL [lines; tag "calls" []; tag "tree" [SSym "no-data"]])
+      | Some None => None
+      | Some (Some (log, vs)) =>
+          Some (SL [lines; tag "calls" (map enc_call log);
+                    tag "tree" [tag "obj" [SL [SStr (bytes_of_string "events");
+                                               tag "list" (map (fun v => match v with Some x => enc_rval x | None => SSym "null" end) vs)]]]])
+      end
+  | Forged => None
+  end.
+
+(** the documents the transcription speaks about: equal response keys select the same field (or
+    both __typename) — the generator places such duplicates in the same scope, without arguments, so
+    that the field-merging rule (not transcribed) never fires; if it did, the implementation's
+    verdict would differ from the model's and the case would be reported —, fragment names
     distinct, every spread names a defined fragment, every fragment is spread somewhere *)
-Fixpoint sel_keys (s : sel) : list name :=
+Fixpoint sel_keys (s : sel) : list (name * option name) :=
   match s with
-  | SField _ k _ sub => (k :: sels_keys sub)%list
-  | STypename _ k => [k]
+  | SField _ k f sub => ((k, Some f) :: sels_keys sub)%list
+  | STypename _ k => [(k, None)]
   | SInline _ _ sub => sels_keys sub
   | SSpread _ _ => []
   end
-with sels_keys (l : sels) : list name :=
+with sels_keys (l : sels) : list (name * option name) :=
   match l with SNil => [] | SCons s r => (sel_keys s ++ sels_keys r)%list end.
+Definition oname_eqb (a b : option name) : bool :=
+  match a, b with Some x, Some y => bytes_eqb x y | None, None => true | _, _ => false end.
+Fixpoint keys_consistent (l : list (name * option name)) : bool :=
+  match l with
+  | [] => true
+  | (k, f) :: r => forallb (fun kf => negb (bytes_eqb k (fst kf)) || oname_eqb f (snd kf)) r && keys_consistent r
+  end.
 Fixpoint sel_spreads (s : sel) : list name :=
   match s with
   | SField _ _ _ sub => sels_spreads sub
@@ -394,7 +419,7 @@ with sels_spreads (l : sels) : list name :=
 Definition doc_wf (d : sdoc) : bool :=
   let spreads := (sels_spreads (d_sels d) ++ flat_map (fun f => sels_spreads (fr_sels f)) (d_frags d))%list in
   let fnames := map fr_name (d_frags d) in
-  nodup (sels_keys (d_sels d) ++ flat_map (fun f => sels_keys (fr_sels f)) (d_frags d))%list &&
+  keys_consistent (sels_keys (d_sels d) ++ flat_map (fun f => sels_keys (fr_sels f)) (d_frags d))%list &&
   nodup fnames && forallb (fun x => mem x fnames) spreads && forallb (fun x => mem x spreads) fnames.
 
 (** ** observations *)
@@ -541,12 +566,35 @@ Definition compare_req (S E : schema) (F G : features) (r : list sexp) : option 
                 end
             | None => Some (v_bad "chain")
             end
+          else if String.eqb k "ssub" then
+            match field "doc" r, field1 "events" r with
+            | Some dl, Some (SZ ev) =>
+                match dec_sdoc dl with
+                | Some d =>
+                    if negb (doc_wf d) then Some (v_bad "ssub-not-well-formed")
+                    else
+                    let seen (o : obs) := match o_rest o with
+                                          | [l; t] => SL [l; tag "calls" (map SStr (o_calls o)); t]
+                                          | _ => SL []
+                                          end in
+                    match model_ssub fixed S F (Z.to_nat ev) d, model_ssub fixed E G (Z.to_nat ev) d with
+                    | Some ma, Some mb =>
+                        if negb (sexp_eqb ma (seen a)) then Some (v_mismatch "subscription-full-schema" [ma; seen a])
+                        else if negb (sexp_eqb mb (seen b)) then Some (v_mismatch "subscription-erased-schema" [mb; seen b])
+                        else None
+                    | _, _ => Some (v_mismatch "subscription-program-forged-a-handle-or-ran-out-of-fuel" [])
+                    end
+                | None => Some (v_bad "ssub")
+                end
+            | _, _ => Some (v_bad "ssub")
+            end
           else if String.eqb k "sdoc" then
             match field "doc" r with
             | Some dl =>
                 match dec_sdoc dl with
                 | Some d =>
                     if negb (doc_wf d) then Some (v_bad "sdoc-not-well-formed")
+                    else if negb (fitsb (d_frags d) (sdoc_fuel d - 2) (d_sels d)) then Some (v_bad "sdoc-cyclic-or-deeper-than-its-fuel")
                     else
                     let seen (o : obs) := match o_rest o with
                                           | [l; t] => SL [l; tag "calls" (map SStr (o_calls o)); t]
@@ -653,6 +701,8 @@ Definition req_classes (S : schema) (F G : features) (r : list sexp) : list stri
                  | Some d =>
                      (if valid then "sdoc-valid" else "sdoc-invalid") ::
                      ((if is_nil (d_frags d) then [] else ["sdoc-with-named-fragments"]) ++
+                      (if nodup (map fst (sels_keys (d_sels d) ++ flat_map (fun f => sels_keys (fr_sels f)) (d_frags d))%list)
+                       then [] else ["sdoc-with-equal-response-keys"]) ++
                      sdoc_exec_classes fixed S F d ++
                      match model_sdoc fixed S F d, model_sdoc fixed S G d with
                      | Some x, Some y =>
@@ -728,6 +778,37 @@ Definition check_physical (S : schema) (F G : features) (l : list sexp) : option
       end
   end.
 
+(** the plumbing history of side a, when the case reports one:
+    (plumbing (transport http|ws) (history (env "f"..) | (init) | (op) ..)) — every operation must
+    run with the case's feature set F according to [ws_effective] / [http_effective] *)
+Definition dec_pstep (s : sexp) : option pstep :=
+  match untag s with
+  | Some (t, args) =>
+      if String.eqb t "env" then option_map PEnv (dec_names args)
+      else if String.eqb t "init" then Some PInit
+      else if String.eqb t "op" then Some POp
+      else None
+  | None => None
+  end.
+Definition same_set (a b : features) : bool := subset a b && subset b a.
+Definition check_plumbing (F : features) (l : list sexp) : option sexp :=
+  match field "plumbing" l with
+  | None => None
+  | Some pl =>
+      match field1 "transport" pl, field "history" pl with
+      | Some (SSym t), Some hs =>
+          match map_opt dec_pstep hs with
+          | Some h =>
+              let eff := if String.eqb t "ws" then ws_effective [] None h else http_effective [] h in
+              if is_nil eff then Some (v_bad "plumbing-without-operation")
+              else if forallb (fun o => match o with Some f => same_set f F | None => false end) eff then None
+              else Some (v_mismatch "plumbing-model-predicts-another-feature-set" [])
+          | None => Some (v_bad "plumbing-history")
+          end
+      | _, _ => Some (v_bad "plumbing")
+      end
+  end.
+
 Definition check_case (S : schema) (F G : features) (accepted : bool) (l : list sexp) (sd : sexp) : sexp :=
   if negb accepted then
     if schema_ok S then v_mismatch "schema-ok" [of_bool true; of_bool false]
@@ -754,7 +835,7 @@ Definition check_case (S : schema) (F G : features) (accepted : bool) (l : list 
                   | None =>
                       if negb (schema_ok S) then v_mismatch "schema-ok" [of_bool false; of_bool true]
                       else
-                      match first_some (compare_req S E F G) rs' with
+                      match (match check_plumbing F l with Some v => Some v | None => first_some (compare_req S E F G) rs' end) with
                       | Some v => v
                       | None =>
                         match check_physical S F G l with
@@ -764,6 +845,7 @@ Definition check_case (S : schema) (F G : features) (accepted : bool) (l : list 
                           let deleted := negb (sexp_eqb (enc_schema E) sd) in
                           let matters := existsb (fun x => String.eqb x "introspect-gating-matters" || String.eqb x "chain-gating-matters" || String.eqb x "sdoc-gating-matters") cl in
                           v_ok (case_kind l :: "schema-accepted" :: edit_class l true ++
+                                (match field "plumbing" l with Some _ => ["plumbing-history-checked"] | None => [] end) ++
                                 (if deleted then ["something-erased"] else ["nothing-erased"]) ++
                                 cl ++ (if deleted && matters then ["nontrivial"] else []))%list
                         end
